@@ -23,8 +23,15 @@ def main():
     # 1. build (facts from /repo, full make, model binary)
     if not a.no_build:
         b = common.build()
-        for e in getattr(b, "facts_errors", []):
-            rep.proof_broken.append("facts regeneration failed (tie to the source broken): " + e)
+        from harness import facts
+        for e in facts.errors_for(pid, getattr(b, "facts_errors", [])):
+            if e.startswith("facts_cli.") and getattr(mod, "CLI_SECOND_TIE", False):
+                # cli.py left the translator's fragment: the property's theorems over the regenerated step lists speak
+                # about stale facts.  The module decides with the second tie (hand model Cli.cli_model + observed runs of
+                # the real command line, clitrace.py); it reports this as a broken tie itself if that one fails as well.
+                rep.deferred_cli = getattr(rep, "deferred_cli", []) + [e]
+            else:
+                rep.proof_broken.append("facts regeneration failed (tie to the source broken): " + e)
         if not b.ok:
             # model files must build for anything to run; proof files may be broken by a change
             model_broken = [f for f in b.broken_files if "Proofs" not in f and "Props" not in f and "gen/" not in f]
@@ -46,6 +53,16 @@ def main():
     except Exception as e:
         traceback.print_exc()
         rep.corr_broken(f"harness error: {type(e).__name__}: {e}", None)
+    if getattr(rep, "deferred_cli", None):
+        if getattr(rep, "cli_tie_ok", False):
+            rep.notes.append("cli.py is outside the fragment of the step-list translator (" + "; ".join(rep.deferred_cli)[:300] +
+                             "): the theorems over CliFacts.v are NOT counted for this run; decided by the hand model "
+                             "Cli.cli_model and the certified comparison of observed runs (all modes, a failure injected at "
+                             "every stage)")
+            rep.coverage["cli_tie"] = "observed-runs-only"
+        else:
+            for e in rep.deferred_cli:
+                rep.proof_broken.append("facts regeneration failed (tie to the source broken): " + e)
     if rep.notes:
         rep.coverage["notes"] = rep.notes
     rc = rep.finish(write_evidence=replay is None)
